@@ -1,12 +1,27 @@
-/* C11 harness: the real PCryptoHash. ops:
- *   new ALG | upd HEX | updz N (N zero bytes, one update call, read-only sparse mapping) |
- *   str | dig [BUFLEN] | len | reset
- * update input is an exact-size heap copy (ASan sees over-reads). */
+/* C11 harness: the real PCryptoHash. ops (one answer line each):
+ *   use K            select handle slot K (0..3); every slot holds its own PCryptoHash (or none)
+ *   new ALG          (frees the slot's previous object) | newt N: p_crypto_hash_new ((PCryptoHashType) N), any integer
+ *   free             p_crypto_hash_free of the slot's object; the slot is empty afterwards
+ *   upd HEX          one update; the input is an exact-size heap copy (ASan sees over-reads)
+ *   updoK HEX        (K = 1..7) the same with the data starting K bytes into the allocation (unaligned input)
+ *   updz N           N zero bytes, one update call, read-only sparse mapping
+ *   updn N           update (hash, NULL, N): documented to be ignored
+ *   str | dig [BUFLEN] | len | type | reset
+ *   dign CAP         get_digest (hash, NULL, &len) with len = CAP   -> "0 ", not a read
+ *   dignl            get_digest (hash, buf, NULL)                   -> "ok", not a read
+ *   nullh            every entry point with hash == NULL            -> "null 0 0 -1"
+ *   par T:R:HEX      T threads, each with its own object of the slot's type, update HEX R times and read the
+ *                    string; prints the string when all threads agree, "race A B" otherwise
+ * `dig` fills the exact-size output buffer with 0xA5 first; bytes beyond the reported length that changed are
+ * reported as " smash@I" after the answer. */
 #include <plibsys.h>
+#include <pthread.h>
 #include <stdio.h>
 #include <stdlib.h>
 #include <string.h>
 #include <sys/mman.h>
+
+#define NSLOT 4
 
 static int hexv (int c) { return c <= '9' ? c - '0' : (c | 32) - 'a' + 10; }
 
@@ -22,25 +37,78 @@ static int alg_of (const char *s) {
 	return -1;
 }
 
+static size_t unhex (const char *arg, unsigned char *b) {
+	size_t len = (arg[0] == '-') ? 0 : strlen (arg) / 2;
+	for (size_t i = 0; i < len; ++i) b[i] = (unsigned char) (hexv (arg[2 * i]) * 16 + hexv (arg[2 * i + 1]));
+	return len;
+}
+
+struct par_job { int type; const unsigned char *data; size_t len; long reps; char out[160]; };
+
+static void *par_run (void *p) {
+	struct par_job *j = p;
+	PCryptoHash *h = p_crypto_hash_new ((PCryptoHashType) j->type);
+	if (!h) { strcpy (j->out, "fail"); return NULL; }
+	for (long r = 0; r < j->reps; ++r) p_crypto_hash_update (h, j->data, j->len);
+	pchar *s = p_crypto_hash_get_string (h);
+	snprintf (j->out, sizeof j->out, "%s", s ? s : "null");
+	p_free (s);
+	p_crypto_hash_free (h);
+	return NULL;
+}
+
 int main (void) {
 	static char line[(1 << 22) + 64], op[16], arg[1 << 22];
-	PCryptoHash *h = NULL;
+	PCryptoHash *slot[NSLOT] = { NULL, NULL, NULL, NULL };
+	int stype[NSLOT] = { 0, 0, 0, 0 };      /* the type each slot's object was created with */
+	int cur = 0;
 	p_libsys_init ();
 	while (fgets (line, sizeof line, stdin)) {
 		arg[0] = 0;
 		int n = sscanf (line, "%15s %s", op, arg);
 		if (n < 1) continue;
-		if (!strcmp (op, "new") && n == 2) {
+		PCryptoHash *h = slot[cur];
+		if (!strcmp (op, "use") && n == 2 && arg[0] >= '0' && arg[0] < '0' + NSLOT && !arg[1]) {
+			cur = arg[0] - '0';
+			puts ("ok");
+		} else if (!strcmp (op, "new") && n == 2) {
 			if (h) p_crypto_hash_free (h);
 			int t = alg_of (arg);
-			h = t < 0 ? NULL : p_crypto_hash_new ((PCryptoHashType) t);
+			h = slot[cur] = t < 0 ? NULL : p_crypto_hash_new ((PCryptoHashType) t);
+			stype[cur] = t;
 			puts (h ? "ok" : "fail");
+		} else if (!strcmp (op, "newt") && n == 2) {
+			if (h) p_crypto_hash_free (h);
+			stype[cur] = (int) strtol (arg, NULL, 10);
+			h = slot[cur] = p_crypto_hash_new ((PCryptoHashType) stype[cur]);
+			puts (h ? "ok" : "fail");
+		} else if (!strcmp (op, "nullh") && n == 1) {
+			psize l = 64; unsigned char b[64];
+			p_crypto_hash_update (NULL, b, 1);
+			p_crypto_hash_reset (NULL);
+			pchar *s = p_crypto_hash_get_string (NULL);
+			p_crypto_hash_get_digest (NULL, b, &l);
+			printf ("%s %zu %zd %d\n", s ? s : "null", (size_t) l, (ssize_t) p_crypto_hash_get_length (NULL),
+				(int) p_crypto_hash_get_type (NULL));
+			p_free (s);
+			p_crypto_hash_free (NULL);
 		} else if (!h) puts ("bad-op");
-		else if (!strcmp (op, "upd") && n == 2) {
+		else if (!strcmp (op, "free") && n == 1) {
+			p_crypto_hash_free (h);
+			slot[cur] = NULL;
+			puts ("ok");
+		} else if (!strcmp (op, "upd") && n == 2) {
 			size_t len = (arg[0] == '-') ? 0 : strlen (arg) / 2;
 			unsigned char *b = malloc (len ? len : 1);
-			for (size_t i = 0; i < len; ++i) b[i] = (unsigned char) (hexv (arg[2 * i]) * 16 + hexv (arg[2 * i + 1]));
+			unhex (arg, b);
 			p_crypto_hash_update (h, b, len);
+			free (b);
+			puts ("ok");
+		} else if (!strncmp (op, "updo", 4) && op[4] >= '1' && op[4] <= '7' && !op[5] && n == 2) {
+			size_t off = (size_t) (op[4] - '0'), len = (arg[0] == '-') ? 0 : strlen (arg) / 2;
+			unsigned char *b = malloc (off + (len ? len : 1));
+			unhex (arg, b + off);
+			p_crypto_hash_update (h, b + off, len);
 			free (b);
 			puts ("ok");
 		} else if (!strcmp (op, "updz") && n == 2) {
@@ -50,6 +118,9 @@ int main (void) {
 			p_crypto_hash_update (h, m, len);
 			munmap (m, len ? len : 1);
 			puts ("ok");
+		} else if (!strcmp (op, "updn") && n == 2) {
+			p_crypto_hash_update (h, NULL, strtoull (arg, NULL, 10));
+			puts ("ok");
 		} else if (!strcmp (op, "str") && n == 1) {
 			pchar *s = p_crypto_hash_get_string (h);
 			puts (s ? s : "null");
@@ -57,17 +128,46 @@ int main (void) {
 		} else if (!strcmp (op, "dig")) {
 			psize cap = n == 2 ? strtoull (arg, NULL, 10) : 64, len = cap;
 			unsigned char *b = malloc (cap ? cap : 1);
+			memset (b, 0xA5, cap ? cap : 1);
 			p_crypto_hash_get_digest (h, b, &len);
 			printf ("%zu ", (size_t) len);
-			for (size_t i = 0; i < len; ++i) printf ("%02x", b[i]);
+			for (size_t i = 0; i < len && i < cap; ++i) printf ("%02x", b[i]);
+			for (size_t i = len; i < cap; ++i) if (b[i] != 0xA5) { printf (" smash@%zu", i); break; }
 			printf ("\n");
 			free (b);
+		} else if (!strcmp (op, "dign") && n == 2) {
+			psize len = strtoull (arg, NULL, 10);
+			p_crypto_hash_get_digest (h, NULL, &len);
+			printf ("%zu \n", (size_t) len);
+		} else if (!strcmp (op, "dignl") && n == 1) {
+			unsigned char b[64];
+			p_crypto_hash_get_digest (h, b, NULL);
+			puts ("ok");
 		} else if (!strcmp (op, "len") && n == 1) printf ("%zd\n", (ssize_t) p_crypto_hash_get_length (h));
+		else if (!strcmp (op, "type") && n == 1) printf ("%d\n", (int) p_crypto_hash_get_type (h));
 		else if (!strcmp (op, "reset") && n == 1) { p_crypto_hash_reset (h); puts ("ok"); }
-		else puts ("bad-op");
+		else if (!strcmp (op, "par") && n == 2) {
+			long T = 0, R = 0; int used = 0;
+			if (sscanf (arg, "%ld:%ld:%n", &T, &R, &used) < 2 || T < 1 || T > 16 || R < 0 || !used) { puts ("bad-op"); fflush (stdout); continue; }
+			const char *hx = arg + used;
+			size_t len = (hx[0] == '-') ? 0 : strlen (hx) / 2;
+			unsigned char *b = malloc (len ? len : 1);
+			unhex (hx, b);
+			struct par_job job[16]; pthread_t th[16];
+			for (long i = 0; i < T; ++i) {
+				job[i].type = stype[cur]; job[i].data = b; job[i].len = len; job[i].reps = R;
+				job[i].out[0] = 0;
+			}
+			for (long i = 0; i < T; ++i) pthread_create (&th[i], NULL, par_run, &job[i]);
+			for (long i = 0; i < T; ++i) pthread_join (th[i], NULL);
+			long bad = 0;
+			for (long i = 1; i < T; ++i) if (strcmp (job[i].out, job[0].out)) bad = i;
+			if (bad) printf ("race %s %s\n", job[0].out, job[bad].out); else puts (job[0].out);
+			free (b);
+		} else puts ("bad-op");
 		fflush (stdout);
 	}
-	if (h) p_crypto_hash_free (h);
+	for (int i = 0; i < NSLOT; ++i) if (slot[i]) p_crypto_hash_free (slot[i]);
 	p_libsys_shutdown ();
 	return 0;
 }
